@@ -290,8 +290,9 @@ class Run:
             "violations": len(self.violations),
             "known_findings_hit": [s for s, _ in self.known],
         }
-        with open(os.path.join(ROOT, "evidence", self.pid + ".json"), "w") as f:
-            json.dump(ev, f, indent=1)
+        if not getattr(self, "replaying", False):   # a --replay run re-examines one case: it is not a coverage statement
+            with open(os.path.join(ROOT, "evidence", self.pid + ".json"), "w") as f:
+                json.dump(ev, f, indent=1)
         log("%s %s: %d evaluations, %d distinct non-trivial, %d states, %d traces, %d violations, %.1fs" % (
             self.pid, self.tier, self.evaluations, len(self.distinct), self.states, self.traces,
             len(self.violations), wall))
@@ -339,6 +340,7 @@ def main(argv):
         sys.exit(2)
     try:
         run = Run(pid, tier, seed, checks.LEVELS[pid])
+        run.replaying = replay is not None
         fn(run, replay)
         rc = run.finish()
     except ToolError as e:
